@@ -43,6 +43,12 @@ def exec_job(job):
     from harness.aclhist import leaves_of
     e = dict(tid=job["tid"], i=0, act=job["act"], plat=job["plat"], vmajor=0, exc="", filter=job.get("filter", ["*"]), got=[],
              cfg=[dict(head=lex.lex(s["hs"]), hs=s["hs"], body=[lex.lex(b) for b in s["body"]]) for s in job["sections"]])
+    if job.get("before_text"):      # an earlier call on another configuration (same process): must not influence this one
+        try:
+            cisco_acl.acls(job["before_text"], platform=job["plat"])
+            cisco_acl.addrgroups(job["before_text"], platform=job["plat"])
+        except Exception:  # noqa
+            pass
     try:
         if job["act"] == "Acls":
             kw = dict(platform=job["plat"])
@@ -111,7 +117,7 @@ NOISE = [dict(hs="hostname R1", body=[]), dict(hs="router bgp 65000", body=["nei
 
 
 def random_config(rng, plat):
-    acl_names = rng.sample(["A1", "B2", "ACL-3", "x_4", "100", "EDGE.V4", "MGMT:SNMP", "DMZ/WEB", "a+b"], rng.randint(1, 3))
+    acl_names = rng.sample(["A1", "B2", "ACL-3", "x_4", "100", "EDGE.V4", "MGMT:SNMP", "DMZ/WEB", "a+b", "MGMT", "Mgmt"], rng.randint(1, 3))
     gnames = rng.sample(["G1", "G2", "NET-3"], rng.randint(1, 2))
     secs = [acl_section(rng, plat, n, gnames) for n in acl_names]
     defined = [g for g in gnames if rng.random() < 0.8]
@@ -176,8 +182,12 @@ def run(tier, seed):
         sources.append((plat, s, names, "random"))
     for plat, secs, names, origin in sources:
         text = render(secs, rng, rng.choice([" ", "  ", "   "]))
-        flt = rng.choice([["*"], ["*"], rng.sample(names, rng.randint(1, len(names))), [names[0], "NOPE"], ["NOPE"]])
-        jobs.append(dict(tid=t, act="Acls", plat=plat, sections=secs, text=text, filter=flt, origin=origin)); t += 1
+        other_case = [n for n in (names[0].lower(), names[0].upper(), names[-1].swapcase()) if n not in names]
+        flt = rng.choice([["*"], ["*"], rng.sample(names, rng.randint(1, len(names))), [names[0], "NOPE"], ["NOPE"]] + ([other_case[:1]] if other_case else []))
+        job = dict(tid=t, act="Acls", plat=plat, sections=secs, text=text, filter=flt, origin=origin)
+        if rng.random() < 0.25:       # the same configuration without its group sections was looked at before
+            job["before_text"] = render([x for x in secs if not x["hs"].startswith("object-group")], rng, " ")
+        jobs.append(job); t += 1
         if rng.random() < 0.3:
             jobs.append(dict(tid=t, act="AddrGroups", plat=plat, sections=secs, text=text, origin=origin)); t += 1
     ev_lists = core.pmap(exec_job, jobs)
